@@ -1,4 +1,6 @@
 import RsslVerif.Lemmas.SlotsInline
+import RsslVerif.Lemmas.FixpointStmt
+import RsslVerif.Gen.FixpointTables
 /-!
 # C04 — emitted DirectX HLSL is accepted by the front end and is a fixpoint
 
@@ -48,5 +50,133 @@ example : assign paramsDefault 0 ([Decl.cbuffer none, .global (some 1) false (so
       .global none false (some .SamplerState) none].map (explicit 2)) =
     assign paramsDefault 2 [Decl.cbuffer none, .global (some 1) false (some .Texture2D) (some 2),
       .global none false (some .SamplerState) none] := slots_stable _ _ _ _
+
+/-! ## Re-elaboration of the exported program adds no conversion (type level, C03 model × exporter shadow)
+
+`Model.Fixpoint.Unelab Γ' i s` says that `s` is a syntax tree the front end can read from the text exported for the
+elaborated expression `i` (`generate_expression` node by node: typed `Int32` constants lose their kind, negative
+constants become `-` applied to the magnitude, casts to literal types are dropped, every function has its own name).
+The theorems are about `Model.Elab.elabE` (C03's model of `parse_expr_internal`, any types, any nesting, any overload
+sets) in the first generation and in the second. -/
+section Reelab
+open RsslVerif.Gen.RankTable RsslVerif.Gen.TypingTables RsslVerif.Gen.FixpointTables
+open RsslVerif.Model.Conv RsslVerif.Model.Overload RsslVerif.Model.IrTyping RsslVerif.Model.Elab RsslVerif.Model.Fixpoint
+open RsslVerif.Lemmas.FixpointElab RsslVerif.Lemmas.FixpointStmt
+
+/-- the hand-written `rereadTable` is `parse_literal` as re-extracted from typer/src/typer/expressions.rs: same
+    constant variant for every suffix kind, the same three kinds rejected, payload = the literal's own value -/
+theorem reread_table_agrees : ∀ k : RsslVerif.Gen.HlslGenTables.LitKind,
+    (parseLiteralTable.find? (fun r => r.1 == k.name)).map (fun r => r.2.map (·.1)) =
+      some ((rereadTable k).map Scalar.name) := by
+  intro k; cases k <;> decide
+
+/-- `litTyped` is the re-extracted `to_literal` test of the `Cast` arm (after `remove_modifier`) -/
+theorem cast_drop_agrees (m : Modifier) (l : Layer) :
+    litTyped ⟨m, l⟩ = (match l with | .scalar s => castDropLayers.contains s.name | _ => false) := by
+  cases l with
+  | scalar s => cases s <;> simp [litTyped] <;> decide
+  | _ => rfl
+
+/-- only typed `Int32` constants change their kind when exported and read back (`3` is an `IntLiteral`); every
+    other kind has a suffix of its own -/
+theorem reread_only_int32 (k : Scalar) : rereadKind k = if k = .int32 then .intLiteral else k := rereadKind_eq k
+
+/-- **reelab_no_new_casts.**  Let `i : τ` be the elaboration of a source expression `s` (any expression of the C03
+    model: literals, variables, all unary and binary operators, `?:`, `,`, casts, calls through overload resolution;
+    scalar, vector, matrix, modified, struct/object types) in the environment `Γ`, and `Γ'` the environment of the
+    exported program (same variables and signatures, every function named on its own).  Then **every** tree `s'` the
+    front end can read from the export of `i` elaborates — in `Γ'`, in debug or release builds — to `i` itself with
+    the same type `τ`: no conversion is added or lost, every literal gets its kind back, every call selects the same
+    function, every operator works on the same type.
+
+    Hypotheses: `SrcOk s` (the first source is one the parser can produce: no `Int32` literal, no cast to an unnamed
+    literal type — exported trees satisfy it again: `export_is_source`); `OutArgsPlain Γ i` (no `Cast` node in an
+    `out` / `inout` argument position: without it the statement is false, `reelab_fails_out_argument`). -/
+theorem reelab_no_new_casts {Γ Γ' : Env} (hR : Renamed Γ Γ') (dbg dbg' : Bool) {s : SExpr} {i : IExpr} {τ : ETy}
+    (hs : SrcOk s) (h : elabE dbg Γ s = .ok (i, τ)) (hp : OutArgsPlain Γ i) {s' : SExpr} (hu : Unelab Γ' i s') :
+    elabE dbg' Γ' s' = .ok (i, τ) := reelab_any hR dbg dbg' hs h hp hu
+
+/-- the same for statements: expression statements, `return e` (conversion to the return type) and `T v = e`
+    (conversion to the variable's type) are rebuilt identically -/
+theorem reelab_stmt_no_new_casts {Γ Γ' : Env} (hR : Renamed Γ Γ') (dbg dbg' : Bool) {s : SStmt} {st : IStmt}
+    (hs : SrcStmtOk s) (h : elabStmt dbg Γ s = .ok st) (hp : OutArgsPlainStmt Γ st) {s' : SStmt}
+    (hu : UnelabStmt Γ' st s') : elabStmt dbg' Γ' s' = .ok st := reelab_stmt hR dbg dbg' hs h hp hu
+
+/-- an exported tree is a source tree again, so the two theorems above apply to every further generation -/
+theorem export_is_source {Γ' : Env} {i : IExpr} {s' : SExpr} (hu : Unelab Γ' i s') : SrcOk s' := unelab_srcOk i s' hu
+
+/-- the executable exporter shadow the driver runs (`Model.Fixpoint.unelab`) produces such a tree -/
+theorem unelab_is_export {Γ' : Env} {i : IExpr} {s' : SExpr} (h : unelab Γ' i = some s') : Unelab Γ' i s' :=
+  unelab_sound i s' h
+
+/-- every environment has an exported version (`uniqueNames`: function `i` is called `i`) -/
+theorem renamed_exists (Γ : Env) : Renamed Γ (uniqueNames Γ) := renamed_uniqueNames Γ
+
+/-- **idempotence**: elaborating the export of an elaborated expression gives an expression whose export elaborates
+    to it again — the composition `elab ∘ export` is idempotent from the first generation on -/
+theorem reelab_idempotent {Γ Γ' : Env} (hR : Renamed Γ Γ') (hR' : Renamed Γ' Γ') (dbg : Bool) {s s' s'' : SExpr}
+    {i : IExpr} {τ : ETy} (hs : SrcOk s) (h : elabE dbg Γ s = .ok (i, τ)) (hp : OutArgsPlain Γ i)
+    (hp' : OutArgsPlain Γ' i) (hu : Unelab Γ' i s') (hu' : Unelab Γ' i s'') : elabE dbg Γ' s'' = .ok (i, τ) :=
+  reelab_no_new_casts hR' dbg dbg (export_is_source hu) (reelab_no_new_casts hR dbg dbg hs h hp hu) hp' hu'
+
+/-! ### non-vacuity -/
+
+/-- `float v0; const int v1; bool v2;`  `int k(int); int k(float);` (one overload set) -/
+def ΓEx : Env :=
+  { vars := [⟨{}, .scalar .float32⟩, ⟨{ isConst := true }, .scalar .int32⟩, ⟨{}, .scalar .bool⟩],
+    funcs := [⟨5, [⟨⟨{}, .scalar .int32⟩, .in⟩], 1, ⟨{}, .scalar .int32⟩⟩,
+              ⟨5, [⟨⟨{}, .scalar .float32⟩, .in⟩], 1, ⟨{}, .scalar .int32⟩⟩] }
+
+/-- `v0 = v1 + 1 + k(v2 + 1) + (v2 ? 1 : 2)`: elaborates to
+    `Assignment(v0, Cast(float, Add(Add(Cast(int, v1), Int32 1), k#0(Cast(int, Add(Cast(IntLiteral, v2), 1)))) + …`
+    with re-tagged literals, a dropped cast to `IntLiteral`, an overload chosen by promotion, and a cast of an
+    `IntLiteral`-typed conditional; its export is accepted and elaborates to the same tree. -/
+def sEx : SExpr :=
+  .bin .assignment (.var 0)
+    (.bin .add (.bin .add (.bin .add (.var 1) (.lit .intLiteral))
+      (.call 5 (.cons (.bin .add (.var 2) (.lit .intLiteral)) .nil)))
+      (.tern (.var 2) (.lit .intLiteral) (.lit .intLiteral)))
+
+example :
+    (match elabE true ΓEx sEx with
+     | .ok (i, τ) =>
+       (match unelab (uniqueNames ΓEx) i with
+        | some s' =>
+          (match elabE true (uniqueNames ΓEx) s' with
+           | .ok (_, τ') => decide (τ' = τ) && decide (τ = ⟨⟨{}, .scalar .float32⟩, .lvalue⟩)
+           | .error _ => false)
+        | none => false)
+     | .error _ => false) = true := by decide
+
+/-- the hypotheses of the theorem hold for it -/
+example : SrcOk sEx := by simp [sEx, SrcOk, SrcArgsOk]; decide
+
+/-! ### the hypothesis on `out` arguments is needed -/
+
+/-- `float v0;`  `void g(out float1 p);` -/
+def ΓOut : Env :=
+  { vars := [⟨{}, .scalar .float32⟩],
+    funcs := [⟨7, [⟨⟨{}, .vector .float32 1⟩, .out⟩], 1, ⟨{}, .other 0⟩⟩] }
+
+/-- **Negation with a witness.**  `g(v0)` with `float v0` and `void g(out float1 p)` is accepted and elaborates to
+    `g(Cast(float1, v0))` (the `T` ↔ `T1` conversion "works for lvalues" in `ImplicitConversion::find`, but `apply`
+    builds a `Cast`, which is an rvalue); the export `g((float1)v0)` is **rejected** in the second generation
+    (`FunctionArgumentTypeMismatch`: an rvalue for an `out` parameter).  So `reelab_no_new_casts` is false without
+    `OutArgsPlain`, and C04's "the emitted text is accepted" is false on the real compiler: replayed by
+    corpus/C04.txt (`void g(out float1 p) …`, known finding; the same root cause as C03's "rvalue passed to
+    out/inout parameter"). -/
+theorem reelab_fails_out_argument :
+    (match elabE true ΓOut (.call 7 (.cons (.var 0) .nil)) with
+     | .ok (.call 0 (.cons (.cast t (.var 0)) .nil), _) =>
+       decide (t = ⟨{}, .vector .float32 1⟩) &&
+       (match unelab (uniqueNames ΓOut) (.call 0 (.cons (.cast t (.var 0)) .nil)) with
+        | some s' =>
+          (match elabE true (uniqueNames ΓOut) s' with
+           | .error (.reject "FunctionArgumentTypeMismatch") => true
+           | _ => false)
+        | none => false)
+     | _ => false) = true := by decide
+
+end Reelab
 
 end RsslVerif.Thm.C04
